@@ -18,7 +18,7 @@
       theorem).  The error TEXT and the stack push/pop callbacks are compared on the Go side only. *)
 From Coq Require Import List NArith ZArith.
 From Coq Require Import Strings.Byte.
-From GoBT Require Import lib.Bytes model.ScriptNum model.Interp model.Debug spec.LifecycleSpec
+From GoBT Require Import lib.Bytes model.ScriptNum model.Interp model.Debug model.DebugStack spec.LifecycleSpec
   proofs.InterpTotal proofs.DebugProofs.
 Import ListNotations.
 
@@ -117,3 +117,37 @@ Example C19_automaton_rejects :
   lifecycle_ok [BE; BS; AS; AE; EOK] = false /\ lifecycle_ok [BE; BS; BO; AO; AS; AE] = false /\
   lifecycle_ok [BS; BO; AO; AS; AE; EOK] = false /\ lifecycle_ok [BE; BS; BO; AO; AS; AE; EOK; EER] = false.
 Proof. vm_compute. repeat split. Qed.
+
+(** ** Stack push/pop callbacks.  The observed complete callback sequence of every run is checked inside Coq
+    against the automaton of model/DebugStack.v (pairs BeforeStackPush/AfterStackPush and
+    BeforeStackPop/AfterStackPop; only while an opcode runs, between the opcode and the script change, in the
+    final check, and after a script change only in a pre-Genesis pay-to-script-hash run).  Acceptance there
+    implies that the lifecycle part is a sentence of the documented grammar ... *)
+Theorem C19_full_trace_refines_lifecycle : forall p2sh tr,
+  full_lifecycle_ok p2sh tr = true -> lifecycle (project tr).
+Proof. intros p2sh tr H. apply lifecycle_ok_iff. exact (full_ok_project p2sh tr H). Qed.
+Print Assumptions C19_full_trace_refines_lifecycle.
+
+(** ... and outside pay-to-script-hash no stack callback may fall between a script change (or the end of a step)
+    and the next opcode *)
+Theorem C19_no_stack_callback_after_script_change : forall tr1 e tr2 q,
+  frun false (QStart, false) tr1 = Some (q, false) ->
+  (q = QACe \/ q = QACr \/ q = QBCe \/ q = QBCr \/ q = QLoop \/ q = QBS \/ q = QBE) ->
+  (e = FPush \/ e = FPop \/ e = FPopFail) -> full_lifecycle_ok false (tr1 ++ e :: tr2) = false.
+Proof. exact no_stack_callback_after_script_change. Qed.
+Print Assumptions C19_no_stack_callback_after_script_change.
+
+Example C19_full_traces :
+  (* OP_1 | OP_1 OP_EQUAL: pushes inside opcodes, pops in OP_EQUAL and in the final check *)
+  full_lifecycle_ok false [FL BE; FL BS; FL BO; FPush; FL AO; FL BC; FL AC; FL AS; FL BS; FL BO; FPush; FL AO; FL AS;
+                           FL BS; FL BO; FPop; FPop; FPush; FL AO; FL BC; FL AC; FL AS; FL AE; FPop; FL EOK] = true /\
+  (* the alt stack dropped AFTER the script change: refused ... *)
+  full_lifecycle_ok false [FL BE; FL BS; FL BO; FPush; FL AO; FL BC; FL AC; FPop; FL AS; FL AE; FL EER] = false /\
+  (* ... except as the bookkeeping of a pay-to-script-hash run *)
+  full_lifecycle_ok true [FL BE; FL BS; FL BO; FPush; FL AO; FL BC; FL AC; FPop; FL AS; FL AE; FL EER] = true /\
+  (* a pop from an empty stack: no after-callback, the step is interrupted *)
+  full_lifecycle_ok false [FL BE; FL BS; FL BO; FPopFail; FL AE; FL EER] = true /\
+  full_lifecycle_ok false [FL BE; FL BS; FL BO; FPopFail; FL AO; FL AS; FL AE; FL EER] = false /\
+  (* a push between two steps *)
+  full_lifecycle_ok false [FL BE; FL BS; FL BO; FL AO; FL AS; FPush; FL BS; FL BO; FL AE; FL EER] = false.
+Proof. vm_compute. repeat split; reflexivity. Qed.
